@@ -8,6 +8,7 @@ mkdir -p /verif/seeded/$NAME
 cd $WT || exit 9
 git diff -- qlasskit > /verif/seeded/$NAME/patch.diff
 cp $WT/demo.py /verif/seeded/$NAME/demo.py
+[ -d $WT/demo_stubs ] && cp -r $WT/demo_stubs /verif/seeded/$NAME/
 PYTHONPATH=$WT /venv/bin/python demo.py >/tmp/seed-demo-with.log 2>&1; WITH=$?
 git apply -R /verif/seeded/$NAME/patch.diff
 PYTHONPATH=$WT /venv/bin/python demo.py >/tmp/seed-demo-without.log 2>&1; WITHOUT=$?
